@@ -26,7 +26,7 @@ RULE = ("string level: one case = one input string of one function; exhaustive w
         "random token soups, generated/mutated/unbalanced type strings, all prefixes of the fixed-offset tags; 9 naming rules x names and 8 variant rules x variant names. "
         "Non-trivial = the input contains a non-ASCII byte or a delimiter the function searches for. "
         "project level: one case = one source tree; generated exotic items, corpus files (plain, commandified, truncated, mutated), non-Rust text, "
-        "bounded deep nesting; isolation = base project with and without unparsable (or non-UTF-8) files. distinct = distinct inputs")
+        "recursive and mutually recursive serde type graphs (every digraph on 3 named types with rotating root sets and containers, random 4-7 node graphs, wide/deep acyclic graphs, long rings) in both modes with exit status / signal / time limit as oracle, bounded deep nesting; isolation = base project with and without unparsable (or non-UTF-8) files. distinct = distinct inputs")
 TRUSTED = [
     "python transcription of Rust's str::parse::<u64>/<f64> grammar (value of min/max only; not needed for panic-freedom)",
     "the token string handed to the attribute scanners is computed by the harness exactly as the code computes it (MetaList.tokens.to_string())",
@@ -414,6 +414,12 @@ def project_cases(rep, rng):
     for d in ((8, 40) if quick else (8, 40, 120)):
         for t in G.deep_nesting(d):
             add("deep-%d" % d, {"lib.rs": t})
+    # recursive / mutually recursive type graphs: the generation half (dependency ordering) in both modes;
+    # an abort or stack overflow there kills the process, so the oracle is exit status / signal / time limit
+    for i, (tag, src) in enumerate(G.type_graph_cases(rep.tier, rng)):
+        for mode in ("zod", "none"):
+            cases.append((tag, {"lib.rs": src}, mode, i % 8 == 0))
+            dist[tag] = dist.get(tag, 0) + 1
     corpus, nreg = G.corpus_files(vlib.REPO, rep.tier)
     rep.extra["corpus_files"] = len(corpus)
     rep.extra["registry_rs_files_total"] = nreg
@@ -478,6 +484,9 @@ CORPUS_PROJECT = [
     ("variant-ascii", {"lib.rs": "use serde::Serialize;\n#[derive(Serialize)]\n#[serde(rename_all = \"camelCase\")]\npub enum E { InProgress, #[serde(skip)] Hidden, État2 }\n#[tauri::command]\nfn c() -> E { todo!() }\n"}, "zod"),
     ("base", BASE_PROJECT, "none"),
     ("base", BASE_PROJECT, "zod"),
+    ("regress-recursive-type", {"lib.rs": G.type_graph_source(["TreeNode", "Meta"], [(0, 1), (0, 0)], [0])}, "zod"),
+    ("regress-recursive-type", {"lib.rs": G.type_graph_source(["TreeNode", "Meta"], [(0, 1), (0, 0)], [0])}, "none"),
+    ("regress-mutual-recursion", {"lib.rs": G.type_graph_source(["Alpha", "Meta", "Zeta"], [(0, 1), (1, 2), (2, 0), (0, 2), (2, 1)], [0, 2])}, "zod"),
 ]
 
 
